@@ -327,7 +327,10 @@ class URI(with_metaclass(URIType)):
 			yield quote(fragment, Percent.FRAGMENT)
 
 	def unquote(self, data: bytes) -> str:
-		return Percent.unquote(bytes(data)).decode(self.encoding)
+		try:
+			return Percent.unquote(bytes(data)).decode(self.encoding)
+		except UnicodeDecodeError:
+			raise InvalidURI(_(u'Invalid URI: percent-encoded octets must be valid %s.'), self.encoding)
 
 	def quote(self, data: str, charset: bytes) -> bytes:
 		return Percent.quote(Unicode(data).encode(self.encoding), charset)
